@@ -13,7 +13,8 @@
     that it stops with a `FLAG:*` failure at the (decidable) situations in which the code is
     NOT meaning-preserving (pair-headed forms handed to `children_optimizer`/`sub_args`, nil or
     negative-read path atoms handed to `sub_args`, path atoms that `NodePath::new` maps to a
-    different index than clvmr traverses) or overflows its stack (path atoms ≥ 1024 bytes handed
+    different index than clvmr traverses — since the `get_u32` repair (c2e6c4f) these are exactly
+    non-minimal atoms with the top bit set) or overflows its stack (path atoms ≥ 1024 bytes handed
     to the recursive `path_from_args`).  The soundness theorem of Props/C04 is about
     un-flagged runs; every flag has a `decide`d counter-witness there.
   Import-free.
@@ -344,8 +345,11 @@ def atomBytes : Val → Option Bytes
 /-- the index `NodePath::new(number_from_u8(b))` is the one clvmr traverses for `b`. -/
 def pathAtomOk (b : Bytes) : Bool := NodePath.new (Bytes.toInt b) == Bytes.toNatBE b
 
-def pathFlag (b : Bytes) : String :=
-  if Bytes.canonical b then "FLAG:get-u32-path" else "FLAG:signed-noncanonical-path"
+/-- the one way `pathAtomOk` fails: a NON-minimal atom with the top bit set (`0xffff`, `0xff80`),
+    which `NodePath::new` re-encodes minimally before reading it unsigned.  (Every canonical
+    atom is fine: `NodePath.new_canonical`; the former second tag `FLAG:get-u32-path` for
+    canonical atoms of ≥ 4 bytes went with the `get_u32` repair, /repo c2e6c4f.) -/
+def pathFlag (_b : Bytes) : String := "FLAG:signed-noncanonical-path"
 
 def pathStep (strict : Bool) (b : Bytes) (isRest : Bool) : Res :=
   if strict && !(pathAtomOk b) then flag (pathFlag b)
